@@ -29,6 +29,7 @@ Precondition
 from __future__ import annotations
 
 import ast
+import os
 
 import z3
 
@@ -153,6 +154,7 @@ class EvalContract(LibModel):
     uses_position = False          # the real body tests `self is self._conditions_root_ or isinstance(self._parent_, ..)`
     source_cases = ('none', 'empty', 'nonempty')
     modes = ('sound', 'witness')
+    public_stream = True       # the function is `_evaluate__` itself (helper generators of a node are not under R8)
 
     # ---- class specific spec (override) ----
     def shape_facts(self, n):
@@ -332,6 +334,8 @@ class EvalContract(LibModel):
             grew = False
             fw = mutated.setdefault('__fields__', {'writes': [], 'frames': []})
             for o in outs:
+                if o.st.ghost.get('yielded') and not st.ghost.get('yielded'):
+                    fw['yields'] = True
                 for w in o.st.ghost.get('writes', []):
                     if not any(w[0] == x[0] and w[1].eq(x[1]) for x in fw['writes']):
                         fw['writes'].append(w)
@@ -378,6 +382,7 @@ class EvalContract(LibModel):
                 if sigma_of_callee is not None and ref == sigma_of_callee[0]:
                     owner = sigma_of_callee[1]
                     who = z3.Store(Z.SubIds(owner), Z.nid(st.ghost['self']), z3.BoolVal(True))
+                if owner is not None:
                     # the callee keeps the dict it extends legitimate (R2 of the rows it yields through it)
                     st.assume(Z.good_row(owner, newc))
                     st.ghost['goodfacts'] = st.ghost.get('goodfacts', []) + [(owner, newc)]
@@ -446,6 +451,10 @@ class EvalContract(LibModel):
             st.fields['is_false'] = Z.havoc_sub(st.fields['is_false'], callee, Z.ITE_B)
             st.fields['ywf'] = Z.havoc_sub(st.fields['ywf'], callee, Z.ITE_B)
             st.fields['eval_parent'] = Z.havoc_sub(st.fields['eval_parent'], callee, Z.ITE_N)
+        if scouted_fields is not None and scouted_fields.get('yields'):
+            # an earlier iteration may have yielded (R8)
+            st.ghost['maybe_yielded'] = z3.Or(st.ghost.get('maybe_yielded', z3.BoolVal(False)),
+                                              iterated if iterated is not None else z3.BoolVal(True))
         if scouted_fields is not None:
             # field writes and callee frames observed by executing the body once in scout mode
             for fld, nd in scouted_fields['writes']:
@@ -584,7 +593,18 @@ class EvalContract(LibModel):
         return self.simple_loop(eng, st, body, iteration, ordinal,
                                 (lambda s_: Z.indom(n, z3.Select(s_.ghost['rho_t'], Z.nid(n)))) if eng.mode == 'witness' else None)
 
+    def _scoped(self, st, outs):
+        # the frame entries of a loop are checked at the end of each of its iterations; once the loop is left they are
+        # out of scope (an enclosing loop keeps its own)
+        outer = st.ghost.get('loop_entry', {})
+        for o in outs:
+            o.st.ghost['loop_entry'] = outer
+        return outs
+
     def simple_loop(self, eng, st, body, iteration, ordinal, witness_hyp):
+        return self._scoped(st, self._simple_loop(eng, st, body, iteration, ordinal, witness_hyp))
+
+    def _simple_loop(self, eng, st, body, iteration, ordinal, witness_hyp):
         outs = []
         if eng.mode == 'sound':
             mutated = self.scout_mutations(eng, st, body, iteration)
@@ -627,6 +647,9 @@ class EvalContract(LibModel):
         st.assume(p2)
 
     def loop_stream(self, eng, st, target, body, stream, ordinal, node):
+        return self._scoped(st, self._loop_stream(eng, st, target, body, stream, ordinal, node))
+
+    def _loop_stream(self, eng, st, target, body, stream, ordinal, node):
         c = stream.data['node']
         f = stream.data['ywf']
         sig, sref = self.sigma_of(eng, st, stream)
@@ -640,9 +663,17 @@ class EvalContract(LibModel):
             return sref is not None and (any(isinstance(v, D) and v.ref == sref for v in h.locals.values())
                                          or h.ghost.get('sigma_ref') == sref)
 
-        def iteration(h, witness=False):
+        # R8 (alias-once): a stream that delivers the very dict it was given as sigma delivers nothing else.  So a loop
+        # over a contracted stream is either one iteration on that dict, run from the exact state before the loop, or
+        # any number of iterations on rows that are not the sigma object (arbitrary-iteration rule).  The helper
+        # generator of a descriptor (`_evaluate_`) is proved against the same clause by its own contract.
+        alias_once = True
+
+        def iteration(h, witness=False, kinds=None):
             res = []
-            for alias in ([False, True] if reachable(h) else [False]):
+            if kinds is None:
+                kinds = (False, True)
+            for alias in [k for k in kinds if (k is False or reachable(h))]:
                 b = h.clone()
                 b.ghost['frames'] = b.ghost.get('frames', []) + [c]
                 b.path.append(f"loop{ordinal}:{'witness-' if witness else ''}{'alias' if alias else 'fresh'}")
@@ -654,6 +685,7 @@ class EvalContract(LibModel):
                     R = Z.ZMap.fresh(f'arow{ordinal}')
                     b.assume(R.extends(csig))
                     b.dicts[sref] = R
+                    b.ghost['alias_row_ref'] = sref
                     b.log_mut(sref, 'callee')
                 else:
                     row = eng.new_dict(b, Z.ZMap.fresh(f'row{ordinal}'))
@@ -678,18 +710,29 @@ class EvalContract(LibModel):
 
         outs = []
         hyp_of = lambda r: z3.And(Z.ext(r, sig), WD(c, r), z3.Implies(filt_c, z3.Or(Z.Den(c, r), f)))
+        arb = (False,) if alias_once else (False, True)
+        arb_iteration = lambda h, witness=False: iteration(h, witness, kinds=arb)
         if eng.mode == 'sound':
-            mutated = self.scout_mutations(eng, st, body, iteration, callee=c)
             inv0 = self.loop_invariant(eng, st, ordinal, z3.BoolVal(False))
             if inv0 is not None:
                 eng.oblige(st, f"inv@loop{ordinal}/init", inv0, line=node.lineno)
+            if alias_once and reachable(st):
+                # the stream's only row is the sigma object itself
+                for o in iteration(st, kinds=(True,)):
+                    if o.sig in (NEXT, CONTINUE, BREAK):
+                        self.on_loop_exhausted(eng, o.st, ordinal, stream)
+                        outs.append(Outcome(o.st))
+                    else:
+                        outs.append(o)
+            mutated = self.scout_mutations(eng, st, body, arb_iteration, callee=c)
             itd = z3.FreshConst(Z.B, f'iterated{ordinal}')
             h = self.havoc_for_loop(eng, st, body, callee=c, extra_refs=mutated, sigma_of_callee=(sref, c), iterated=itd)
+            h.ghost['arbitrary_iteration'] = h.ghost.get('arbitrary_iteration', 0) + 1
             hi = h.clone()
             invh = self.loop_invariant(eng, hi, ordinal, itd)
             if invh is not None:
                 hi.assume(invh)
-            for o in iteration(hi):
+            for o in arb_iteration(hi):
                 if o.sig in (NEXT, CONTINUE):
                     invn = self.loop_invariant(eng, o.st, ordinal, z3.BoolVal(True))
                     if invn is not None:
@@ -697,10 +740,12 @@ class EvalContract(LibModel):
                     self.on_iteration_end(eng, o.st, ordinal)
                     self.check_sigma_frame(eng, o.st, ordinal)
                 elif o.sig == BREAK:
+                    o.st.ghost['arbitrary_iteration'] -= 1
                     outs.append(Outcome(o.st))
                 else:
                     outs.append(o)
             e = h.clone()
+            e.ghost['arbitrary_iteration'] -= 1
             e.path.append(f"loop{ordinal}:done")
             inve = self.loop_invariant(eng, e, ordinal, itd)
             if inve is not None:
@@ -714,13 +759,33 @@ class EvalContract(LibModel):
         # ---- witness mode
         H = hyp_of(rho)
         for b, holds in eng.branch(st, H, f"W{ordinal}"):
-            mutated = self.scout_mutations(eng, b, body, iteration, callee=c)
+            mutated = self.scout_mutations(eng, b, body, arb_iteration, callee=c)
             h = self.havoc_for_loop(eng, b, body, callee=c, extra_refs=mutated, sigma_of_callee=(sref, c))
             if not holds:
+                # no row is owed for rho_t; whatever rows there are, the state after the loop is the havocked one
+                # (when the only row is the sigma object itself, see the sound mode for the exact treatment)
+                if alias_once and reachable(b):
+                    for o in iteration(b, kinds=(True,)):
+                        if o.sig in (NEXT, CONTINUE, BREAK):
+                            self.on_loop_exhausted(eng, o.st, ordinal, stream)
+                            outs.append(Outcome(o.st))
+                        else:
+                            outs.append(o)
                 self.on_loop_exhausted(eng, h, ordinal, stream)
                 outs.append(Outcome(h))
                 continue
-            for o in iteration(h, witness=True):
+            if alias_once and reachable(b):
+                # the row owed for rho_t is the sigma object itself: it is the only row
+                for o in iteration(b, witness=True, kinds=(True,)):
+                    if o.sig in (NEXT, CONTINUE, BREAK):
+                        if self.is_covered(eng, o.st):
+                            outs.append(Outcome(o.st, 'covered'))
+                        else:
+                            self.on_loop_exhausted(eng, o.st, ordinal, stream)
+                            outs.append(Outcome(o.st))
+                    else:
+                        outs.append(o)
+            for o in arb_iteration(h, witness=True):
                 if o.sig in (NEXT, CONTINUE, BREAK):
                     if self.is_covered(eng, o.st):
                         outs.append(Outcome(o.st, 'covered'))
@@ -901,6 +966,7 @@ class EvalContract(LibModel):
         m = row.merge(sig)
         lbl = z3.Select(st.fields['is_false'], n)
         st = st.clone()
+        yielded_before = z3.BoolVal(True) if st.ghost.get('yielded') else st.ghost.get('maybe_yielded', z3.BoolVal(False))
         st.ghost['yielded'] = True
         if eng.mode == 'sound':
             tag = f"row@yield#{ordinal}"
@@ -925,6 +991,15 @@ class EvalContract(LibModel):
                 eng.oblige(st, f"{tag}/R6-self-contained",
                            z3.Map(Z.IMP_D, z3.Map(Z.AND_D, sig.has, Z.SubIds(n)), row.has) == TRUE_IDS, line=node.lineno)
             eng.oblige(st, f"{tag}/R5-binds", z3.Map(Z.IMP_D, self.binds_ids(st, n), m.has) == TRUE_IDS, line=node.lineno)
+            if self.public_stream:
+                # R8: the sigma object itself, when yielded, is the only row (no row before it, none after it)
+                is_sigma = v.ref == st.ghost.get('sigma_ref')
+                only = z3.BoolVal(not st.ghost.get('alias_yielded'))
+                if is_sigma:
+                    only = z3.And(only, z3.Not(yielded_before), z3.BoolVal(st.ghost.get('arbitrary_iteration', 0) == 0))
+                eng.oblige(st, f"{tag}/R8-sigma-object-is-the-only-row", only, line=node.lineno)
+                if is_sigma:
+                    st.ghost['alias_yielded'] = True
             eng.oblige(st, f"cover@yield#{ordinal}", z3.BoolVal(True), kind='cover', line=node.lineno)
             self.extra_yield_obligations(eng, st, v, ordinal, node)
         else:
